@@ -342,6 +342,9 @@ def m_part(run, scr, nat):
         r"^std::collections::HashMap::<std::string::String, quantity::Quantity>::get_mut::<str>$": m_map_get_mut,
         r"^std::collections::HashMap::<std::string::String, quantity::Quantity>::insert$": m_map_insert,
         r"^<str as ToString>::to_string$": models.m_identity,
+        # a case / whitespace transformation of the unit text is, for arbitrary text, a DIFFERENT key than the text itself
+        r"^(std|core|alloc)::str::<impl str>::(to_lowercase|to_uppercase|to_ascii_lowercase|to_ascii_uppercase|trim\w*)$":
+            lambda it_, a, cal: Opaque("a transformation (%s) of the unit text" % cal.split("::")[-1], [a[0]]),
     }
     saved = dict(it.models)
     it.models.update(gq_models)
